@@ -26,17 +26,17 @@ Proof. unfold isnode. destruct (getc g k) eqn:E; [intros _; eapply getc_lt; eaut
 Lemma isrec_lt g k : isrec g k = true -> (k < nheap g)%nat.
 Proof. unfold isrec. destruct (getc g k) eqn:E; [intros _; eapply getc_lt; eauto|discriminate]. Qed.
 Lemma isnode_isrec g k : isnode g k = true -> isrec g k = false.
-Proof. unfold isnode, isrec. destruct (getc g k) as [[? [?|?] ? ? ?]|]; auto; discriminate. Qed.
+Proof. unfold isnode, isrec. destruct (getc g k) as [[? [?|?|] ? ? ?]|]; auto; discriminate. Qed.
 Lemma isrec_isnode g k : isrec g k = true -> isnode g k = false.
-Proof. unfold isnode, isrec. destruct (getc g k) as [[? [?|?] ? ? ?]|]; auto; discriminate. Qed.
+Proof. unfold isnode, isrec. destruct (getc g k) as [[? [?|?|] ? ? ?]|]; auto; discriminate. Qed.
 Lemma okn_iff g k : okn g k = true <-> cs_of g k = Some Constr /\ isnode g k = true.
 Proof.
-  unfold okn, cs_of, isnode. destruct (getc g k) as [[[] [?|?] ? ? ?]|]; cbn; split; intros H; try discriminate; auto;
+  unfold okn, cs_of, isnode. destruct (getc g k) as [[[] [?|?|] ? ? ?]|]; cbn; split; intros H; try discriminate; auto;
     destruct H; discriminate.
 Qed.
 Lemma okz_iff g k : okz g k = true <-> cs_of g k = Some Constr /\ isrec g k = true.
 Proof.
-  unfold okz, cs_of, isrec. destruct (getc g k) as [[[] [?|?] ? ? ?]|]; cbn; split; intros H; try discriminate; auto;
+  unfold okz, cs_of, isrec. destruct (getc g k) as [[[] [?|?|] ? ? ?]|]; cbn; split; intros H; try discriminate; auto;
     destruct H; discriminate.
 Qed.
 Lemma cs_is_iff g k s : cs_is g k s = true <-> cs_of g k = Some s.
@@ -131,7 +131,7 @@ Lemma grec_setn g k n j : isnode g k = true -> grec (setn g k n) j = grec g j.
 Proof.
   intros H. destruct (Nat.eq_dec j k) as [->|Hne]; [|apply sb_grec with (k := k); [apply same_but_modc|auto]].
   unfold grec, isnode in *. rewrite getc_setn, Nat.eqb_refl.
-  destruct (getc g k) as [[? [?|?] ? ? ?]|]; try discriminate; reflexivity.
+  destruct (getc g k) as [[? [?|?|] ? ? ?]|]; try discriminate; reflexivity.
 Qed.
 Lemma cs_of_setn g k n j : cs_of (setn g k n) j = cs_of g j.
 Proof.
@@ -167,7 +167,7 @@ Lemma gnode_setz g k r j : isrec g k = true -> gnode (setz g k r) j = gnode g j.
 Proof.
   intros H. destruct (Nat.eq_dec j k) as [->|Hne]; [|apply sb_gnode with (k := k); [apply same_but_modc|auto]].
   unfold gnode, isrec in *. rewrite getc_setz, Nat.eqb_refl.
-  destruct (getc g k) as [[? [?|?] ? ? ?]|]; try discriminate; reflexivity.
+  destruct (getc g k) as [[? [?|?|] ? ? ?]|]; try discriminate; reflexivity.
 Qed.
 Lemma cs_of_setz g k r j : cs_of (setz g k r) j = cs_of g j.
 Proof.
@@ -234,6 +234,16 @@ Proof. unfold grec. rewrite getc_alloc, Nat.eqb_refl. reflexivity. Qed.
 Lemma gnode_alloc_rec g r j : gnode (fst (do_alloc g (BRec r))) j = gnode g j.
 Proof.
   unfold gnode. rewrite getc_alloc. destruct (Nat.eqb_spec j (nheap g)) as [->|]; [|reflexivity].
+  rewrite getc_ge by lia. reflexivity.
+Qed.
+Lemma gnode_alloc_raw g j : gnode (fst (do_alloc g BRaw)) j = gnode g j.
+Proof.
+  unfold gnode. rewrite getc_alloc. destruct (Nat.eqb_spec j (nheap g)) as [->|]; [|reflexivity].
+  rewrite getc_ge by lia. reflexivity.
+Qed.
+Lemma grec_alloc_raw g j : grec (fst (do_alloc g BRaw)) j = grec g j.
+Proof.
+  unfold grec. rewrite getc_alloc. destruct (Nat.eqb_spec j (nheap g)) as [->|]; [|reflexivity].
   rewrite getc_ge by lia. reflexivity.
 Qed.
 Lemma grec_alloc_node g n j : grec (fst (do_alloc g (BNode n))) j = grec g j.
@@ -396,50 +406,50 @@ Qed.
 Lemma gnode_construct_rec g k r j : isrec g k = true -> gnode (fst (do_construct g k (BRec r))) j = gnode g j.
 Proof.
   intros H. unfold gnode, isrec in *. rewrite getc_construct. destruct (Nat.eqb_spec j k) as [->|]; [|reflexivity].
-  destruct (getc g k) as [[? [?|?] ? ? ?]|]; try discriminate; cbn; destruct (cs_is g k Alloc); reflexivity.
+  destruct (getc g k) as [[? [?|?|] ? ? ?]|]; try discriminate; cbn; destruct (cs_is g k Alloc); reflexivity.
 Qed.
 Lemma grec_construct_node g k n j : isnode g k = true -> grec (fst (do_construct g k (BNode n))) j = grec g j.
 Proof.
   intros H. unfold grec, isnode in *. rewrite getc_construct. destruct (Nat.eqb_spec j k) as [->|]; [|reflexivity].
-  destruct (getc g k) as [[? [?|?] ? ? ?]|]; try discriminate; cbn; destruct (cs_is g k Alloc); reflexivity.
+  destruct (getc g k) as [[? [?|?|] ? ? ?]|]; try discriminate; cbn; destruct (cs_is g k Alloc); reflexivity.
 Qed.
 Lemma gnode_construct_node g k n j : isnode g k = true ->
   gnode (fst (do_construct g k (BNode n))) j =
   if Nat.eqb j k then (if cs_is g k Alloc then n else gnode g k) else gnode g j.
 Proof.
   intros H. unfold gnode, isnode in *. rewrite getc_construct. destruct (Nat.eqb_spec j k) as [->|]; [|reflexivity].
-  destruct (getc g k) as [[? [?|?] ? ? ?]|]; try discriminate; cbn. destruct (cs_is g k Alloc); reflexivity.
+  destruct (getc g k) as [[? [?|?|] ? ? ?]|]; try discriminate; cbn. destruct (cs_is g k Alloc); reflexivity.
 Qed.
 Lemma grec_construct_rec g k r j : isrec g k = true ->
   grec (fst (do_construct g k (BRec r))) j =
   if Nat.eqb j k then (if cs_is g k Alloc then r else grec g k) else grec g j.
 Proof.
   intros H. unfold grec, isrec in *. rewrite getc_construct. destruct (Nat.eqb_spec j k) as [->|]; [|reflexivity].
-  destruct (getc g k) as [[? [?|?] ? ? ?]|]; try discriminate; cbn. destruct (cs_is g k Alloc); reflexivity.
+  destruct (getc g k) as [[? [?|?|] ? ? ?]|]; try discriminate; cbn. destruct (cs_is g k Alloc); reflexivity.
 Qed.
 Lemma isnode_construct_node g k n j : isnode g k = true -> isnode (fst (do_construct g k (BNode n))) j = isnode g j.
 Proof.
   intros H. destruct (Nat.eq_dec j k) as [->|Hne]; [|apply sb_isnode with (k := k); [apply same_but_construct|auto]].
   rewrite H. unfold isnode in *. rewrite getc_construct, Nat.eqb_refl.
-  destruct (getc g k) as [[? [?|?] ? ? ?]|]; try discriminate; cbn. destruct (cs_is g k Alloc); reflexivity.
+  destruct (getc g k) as [[? [?|?|] ? ? ?]|]; try discriminate; cbn. destruct (cs_is g k Alloc); reflexivity.
 Qed.
 Lemma isrec_construct_node g k n j : isnode g k = true -> isrec (fst (do_construct g k (BNode n))) j = isrec g j.
 Proof.
   intros H. destruct (Nat.eq_dec j k) as [->|Hne]; [|apply sb_isrec with (k := k); [apply same_but_construct|auto]].
   rewrite (isnode_isrec _ _ H). unfold isrec, isnode in *. rewrite getc_construct, Nat.eqb_refl.
-  destruct (getc g k) as [[? [?|?] ? ? ?]|]; try discriminate; cbn. destruct (cs_is g k Alloc); reflexivity.
+  destruct (getc g k) as [[? [?|?|] ? ? ?]|]; try discriminate; cbn. destruct (cs_is g k Alloc); reflexivity.
 Qed.
 Lemma isrec_construct_rec g k r j : isrec g k = true -> isrec (fst (do_construct g k (BRec r))) j = isrec g j.
 Proof.
   intros H. destruct (Nat.eq_dec j k) as [->|Hne]; [|apply sb_isrec with (k := k); [apply same_but_construct|auto]].
   rewrite H. unfold isrec in *. rewrite getc_construct, Nat.eqb_refl.
-  destruct (getc g k) as [[? [?|?] ? ? ?]|]; try discriminate; cbn. destruct (cs_is g k Alloc); reflexivity.
+  destruct (getc g k) as [[? [?|?|] ? ? ?]|]; try discriminate; cbn. destruct (cs_is g k Alloc); reflexivity.
 Qed.
 Lemma isnode_construct_rec g k r j : isrec g k = true -> isnode (fst (do_construct g k (BRec r))) j = isnode g j.
 Proof.
   intros H. destruct (Nat.eq_dec j k) as [->|Hne]; [|apply sb_isnode with (k := k); [apply same_but_construct|auto]].
   rewrite (isrec_isnode _ _ H). unfold isrec, isnode in *. rewrite getc_construct, Nat.eqb_refl.
-  destruct (getc g k) as [[? [?|?] ? ? ?]|]; try discriminate; cbn. destruct (cs_is g k Alloc); reflexivity.
+  destruct (getc g k) as [[? [?|?|] ? ? ?]|]; try discriminate; cbn. destruct (cs_is g k Alloc); reflexivity.
 Qed.
 
 (* the other fields after a ledger operation: only [fault] may change (to true) *)
@@ -490,6 +500,76 @@ Proof.
   pose proof (lfault_fields (cs_is g k Destr) k (modc g k (fun c => bump_fr (if cs_is g k Destr then set_cs Freed c else c)))) as H.
   destruct (lfault _ _ _) as [g2 fe]. cbn [fst] in *.
   pose proof (modc_fields g k (fun c => bump_fr (if cs_is g k Destr then set_cs Freed c else c))) as M.
+  cbn zeta in H. intuition congruence.
+Qed.
+
+(* ---------- do_dealloc_raw: deallocate of never-constructed storage ---------- *)
+Definition rawok (g : glob) (k : nat) : bool :=
+  cs_is g k Alloc && match getc g k with Some c => israwc c | None => false end.
+Definition rawf (g : glob) (k : nat) (c : cell) : cell :=
+  if israwc c then bump_fr (if rawok g k then set_cs Freed c else c) else c.
+Lemma getc_dealloc_raw g k j :
+  getc (fst (do_dealloc_raw g k)) j = if Nat.eqb j k then option_map (rawf g k) (getc g k) else getc g j.
+Proof.
+  unfold do_dealloc_raw. fold (rawok g k).
+  destruct (lfault (rawok g k) k _) as [g2 fe] eqn:E. cbn [fst].
+  assert (heap g2 = heap (modc g k (rawf g k))) as Hh.
+  { pose proof (lfault_heap (rawok g k) k (modc g k (rawf g k))) as H. unfold rawf in H at 1. rewrite E in H. exact H. }
+  rewrite (getc_heap _ _ j Hh). apply getc_modc.
+Qed.
+Lemma same_but_dealloc_raw g k : same_but g (fst (do_dealloc_raw g k)) k.
+Proof.
+  split.
+  - apply nheap_of_getc. intros j. rewrite getc_dealloc_raw. destruct (Nat.eqb_spec j k) as [->|]; [|tauto].
+    destruct (getc g k); cbn; split; intros; congruence.
+  - intros j Hj. rewrite getc_dealloc_raw. destruct (Nat.eqb_spec j k); [contradiction|reflexivity].
+Qed.
+Lemma rawf_body g k c : cb (rawf g k c) = cb c.
+Proof. unfold rawf. destruct (israwc c); [destruct (rawok g k)|]; reflexivity. Qed.
+Lemma rawf_notraw g k c : israwc c = false -> rawf g k c = c.
+Proof. unfold rawf. intros ->. reflexivity. Qed.
+Lemma gnode_dealloc_raw g k j : gnode (fst (do_dealloc_raw g k)) j = gnode g j.
+Proof.
+  unfold gnode. rewrite getc_dealloc_raw. destruct (Nat.eqb_spec j k) as [->|]; [|reflexivity].
+  destruct (getc g k) as [c|]; [|reflexivity]. cbn [option_map]. pose proof (rawf_body g k c) as B.
+  destruct (rawf g k c) as [s1 b1 ? ? ?], c as [s0 b0 ? ? ?]. cbn in B. subst b1. destruct b0; reflexivity.
+Qed.
+Lemma grec_dealloc_raw g k j : grec (fst (do_dealloc_raw g k)) j = grec g j.
+Proof.
+  unfold grec. rewrite getc_dealloc_raw. destruct (Nat.eqb_spec j k) as [->|]; [|reflexivity].
+  destruct (getc g k) as [c|]; [|reflexivity]. cbn [option_map]. pose proof (rawf_body g k c) as B.
+  destruct (rawf g k c) as [s1 b1 ? ? ?], c as [s0 b0 ? ? ?]. cbn in B. subst b1. destruct b0; reflexivity.
+Qed.
+Lemma isnode_dealloc_raw g k j : isnode (fst (do_dealloc_raw g k)) j = isnode g j.
+Proof.
+  unfold isnode. rewrite getc_dealloc_raw. destruct (Nat.eqb_spec j k) as [->|]; [|reflexivity].
+  destruct (getc g k) as [[s0 [n0|r0|] ? ? ?]|]; cbn [option_map]; try reflexivity.
+  all: unfold rawf; cbn; destruct (rawok g k); reflexivity.
+Qed.
+Lemma isrec_dealloc_raw g k j : isrec (fst (do_dealloc_raw g k)) j = isrec g j.
+Proof.
+  unfold isrec. rewrite getc_dealloc_raw. destruct (Nat.eqb_spec j k) as [->|]; [|reflexivity].
+  destruct (getc g k) as [[s0 [n0|r0|] ? ? ?]|]; cbn [option_map]; try reflexivity.
+  all: unfold rawf; cbn; destruct (rawok g k); reflexivity.
+Qed.
+(* node and record cells keep their ledger state *)
+Lemma cs_of_dealloc_raw g k j : isnode g j = true \/ isrec g j = true ->
+  cs_of (fst (do_dealloc_raw g k)) j = cs_of g j.
+Proof.
+  intros H. unfold cs_of. rewrite getc_dealloc_raw. destruct (Nat.eqb_spec j k) as [->|]; [|reflexivity].
+  unfold isnode, isrec in H. destruct (getc g k) as [[s0 [n0|r0|] ? ? ?]|]; cbn [option_map]; try reflexivity.
+  all: destruct H; discriminate.
+Qed.
+Lemma dealloc_raw_fields g k :
+  let g' := fst (do_dealloc_raw g k) in
+  head g' = head g /\ tail g' = tail g /\ zhead g' = zhead g /\ wmtx g' = wmtx g /\
+  misuse g' = misuse g /\ unfixed g' = unfixed g /\ mlog g' = mlog g /\ lo g' = lo g /\ hi g' = hi g /\
+  lst g' = lst g /\ zlog g' = zlog g /\ fault g' = (fault g || negb (rawok g k)).
+Proof.
+  unfold do_dealloc_raw. fold (rawok g k).
+  pose proof (lfault_fields (rawok g k) k (modc g k (rawf g k))) as H. unfold rawf in H at 1.
+  destruct (lfault _ _ _) as [g2 fe]. cbn [fst] in *.
+  pose proof (modc_fields g k (rawf g k)) as M.
   cbn zeta in H. intuition congruence.
 Qed.
 
